@@ -306,7 +306,10 @@ class Engine:
                     if I.ctx.branch(hi < 0):
                         raise Unsupported("slice with a possibly negative upper bound")
                 elif hi < 0:
-                    raise Unsupported("slice with negative upper bound")
+                    # xs[lo:-c] : the upper bound counts from the end
+                    top = z3.If(n + hi >= 0, n + hi, 0)
+                    ln = z3.If(top - lo >= 0, top - lo, 0)
+                    return SListView(obj, lo, 1, ln)
                 top = z3.If(hi <= n, hi, n)
                 ln = z3.If(top - lo >= 0, top - lo, 0)
                 return SListView(obj, lo, 1, ln)
